@@ -38,6 +38,10 @@ def main(chk: core.Check, replay):
     run_scheme_corpus(chk, "C05", {"explicit_euler", "generate"}, fams=[3, 4, 5] if chk.tier == "quick" else [1, 2, 3, 4, 5],
                       schemes=["explicit_euler"])
     structural.run(chk, "C05")
+    # every backend: the C module (inputs are const arrays, compared after the call) and the jitted JAX module
+    # called with JAX arrays (a donated buffer is a modified input)
+    structural.run(chk, "C05", backend="c", quick_models=20, thorough_models=300)
+    structural.run(chk, "C05", backend="jax-jit", quick_models=8, thorough_models=100)
     aliases(chk)
 
 
